@@ -262,7 +262,7 @@ def r3_mode_seed_reaches_pipeline(ctx):
         # whatever shape the drawing code has (comprehension, loop + append, helper): the values
         # flowing into `seeds` must include a generator built from the optimiser seed
         for v in flow_exprs(b, st.value)[1]:
-            if "default_rng" in norm(v) and "self.pygmo_seed" in norm(v):
+            if "default_rng" in norm(v) and ("self.pygmo_seed" in norm(v) or "self.pygmo_seed" in norm(expand(b, v, depth=4))):
                 derived = True
     ctx.check(derived, b.qual + "#island-seeds", "island seeds drawn from default_rng(self.pygmo_seed) (local generator)" if derived else "island seeds do not derive from the optimiser seed", where=b, node=sts[-1] if sts else b.node)
     isl = [cl for fn in [b] + list(b.nested.values()) for cl in calls_in(fn.node) if call_name(cl).endswith("pg.island") or call_name(cl) == "island"]
